@@ -464,6 +464,13 @@ func (self *VM) Wait() (coreNum uint, i *value.VmInterrupt) {
 			select {
 			case i := <-core.SignalHandle:
 				if i == nil {
+					self.Cores.Lock.RUnlock()
+					verifYield("wait-gap")
+
+					// The new core list must be computed while holding the write lock:
+					// a core which is spawned between releasing the read lock and acquiring the write lock
+					// would otherwise be dropped from the list (and never waited for).
+					self.Cores.Lock.Lock()
 					newCores := make([]Core, 0)
 
 					for _, coreIter := range self.Cores.Cores {
@@ -474,10 +481,6 @@ func (self *VM) Wait() (coreNum uint, i *value.VmInterrupt) {
 						newCores = append(newCores, coreIter)
 					}
 
-					self.Cores.Lock.RUnlock()
-					verifYield("wait-gap")
-
-					self.Cores.Lock.Lock()
 					self.Cores.Cores = newCores
 					self.Cores.Lock.Unlock()
 
